@@ -2616,7 +2616,7 @@ func lemmaForwardSession(raw *rawEnvelope) (e *Session, e3 *Session, accepted bo
 
 //@ func (*tcpTransport).Send :: (t, ctx, e) (result)
 //@   props C04 C09 C12
-//@   requires t != nil && (t.conn != nil && !t.eof ==> t.encoder != nil && t.ctxConn != nil)
+//@   requires t != nil && (t.conn != nil && !t.eof ==> t.encoder != nil && t.ctxConn != nil && t.ctxConn.conn != nil)
 //@   panics only-if ctx == nil || e == nil || payloadnil(e)
 //@   modifies t.eof, t.ctxConn.writeCtx, t.ctxConn.writeCancel, t.encoder.ended, t.ctxConn.conn.closed
 //@   oncall [C04] (*encoding/json.Encoder).Encode : a_v == e
